@@ -86,4 +86,12 @@ CLAIMED = {
         'bool-typed weights are promoted by new() (DTYPE tracking).',
    note='Trusted: vmap pointwise, tree_map over Stat fields, SUMROWS additivity and sum of zeros, R arithmetic. '
         'PerDomainMetric/ConfusionMatrix zeros and user metrics: bounded native check only (on violation/replay).'),
+ 'C06': dict(
+   text='Proof in a rows model (a vector over the batch rows is its entry at an arbitrary row; reductions are an uninterpreted SUMROWS of the '
+        'pointwise expression) that the real scalar_loss is (sum of real-row losses)/(number of real rows) + regularizer exactly once, '
+        'never mentions padded rows, gives 0 + regularizer on a fully padded batch; that grad() returns jit(grad(scalar_loss)); that the '
+        'average-loss step/finalise/loop accumulate real rows only and finalise once; that the Mime gradient accumulator adds '
+        'n_b * g_b and n_b with the documented key plumbing; that per-domain segment sums count real rows of that domain only.',
+   note='Trusted: jax.grad extensional/linear, split deterministic, x*mask = mask?x:0, SUMROWS abstraction, R arithmetic (float32 '
+        'NaN-freedom of safe_div is a C05 obligation). Precondition from the only call site: domain metrics are built without a regularizer.'),
 }
